@@ -55,7 +55,22 @@ CHECKS['C15'] = dict(
          'applied. Completeness of discoverable recordings is claimed for saves only, as the property states.',
     technique='Hypothesis stateful testing with injected crash points; invariant over a mutation log')
 
+CHECKS['C01'] = dict(
+    engine='progsim', category='exploration', design='DESIGN.md 3 C01',
+    text='Hypothesis-generated operation programs are built into real classes with the real decorators, recorded, '
+         'stored and fetched through every cassette type (in-memory, file, S3 with and without prefix, async wrapper) '
+         'and replayed; round-trip oracle on every call site, the operation result, Playback outputs and a body '
+         'journal (no wrapped body may run in replay).',
+    note='Expected side is what the live run actually did (harness journal), not a re-implementation. Generator '
+         'preconditions: inputs normalised to be a function of (alias, captured args); faithful value domain of the '
+         'pinned serializer; thread-private output aliases; worker overlap forced by a rendezvous inside bodies.',
+    technique='Hypothesis property-based testing of generated programs (record/replay round trip)')
+
 ENGINES = [
+    ('progsim', 'pbt/progsim.py', 'program simulator: JSON program descriptions -> real decorated classes, undecorated '
+                                  'twin, journals, fault injection, program strategies', ['C01', 'C02', 'C03', 'C04',
+                                                                                          'C05', 'C09', 'C11', 'C17',
+                                                                                          'C18', 'C20']),
     ('runner', 'pbt/runner.py', 'seed/tier handling, Hypothesis drivers, sharding, evidence writer', None),
     ('refmatch', 'pbt/refmatch.py', 'reference model of metadata filter matching written from the statement',
      ['C14', 'C10']),
